@@ -43,6 +43,9 @@ struct Globals {
   long nErrors = 0;
   // throw countdown: -1 = never; 0 = the next throwing-capable event throws
   long countdown = -1;
+  // second fault: once the first injected exception has been thrown, the countdown restarts from this value (-1 = no second
+  // fault): the roll-back code that runs in the handlers is then interrupted by an exception of its own
+  long countdown2 = -1;
   long throwingEvents = 0;  // number of throwing-capable events seen since last arm
   // allocator ledger
   std::map<void *, size_t> blocks;  // pointer -> size in "units" (elements or bytes, see allocator)
@@ -67,7 +70,8 @@ struct Globals {
   void tick(const char *what) {
     ++throwingEvents;
     if (countdown == 0) {
-      countdown = -1;
+      countdown = countdown2;
+      countdown2 = -1;
       lastInjected = what;
       if (announceInjection()) {
         std::printf("INJ %s\n", what);  // survives a crash of the operation (stdout is flushed)
@@ -80,7 +84,8 @@ struct Globals {
   void tickAlloc() {
     ++throwingEvents;
     if (countdown == 0) {
-      countdown = -1;
+      countdown = countdown2;
+      countdown2 = -1;
       lastInjected = "allocate";
       if (announceInjection()) {
         std::printf("INJ allocate\n");
